@@ -85,7 +85,7 @@ let parse_rib s : (n * entry) list =
 
 let () =
   let lineno = ref 0 and case = ref "-" in
-  let model : net ref = ref [] in
+  let pm : pstate ref = ref pinit in
   let last_dirty = ref false in
   let ncases = ref 0 and nevents = ref 0 and nchecks = ref 0 in
   (* implementation side: latest neighbour table and Entries() per router *)
@@ -94,6 +94,10 @@ let () =
   let impl_rt : (n, router) Hashtbl.t = Hashtbl.create 16 in
   let impl_rib : (n, string) Hashtbl.t = Hashtbl.create 16 in
   let late_pending : (n * string) option ref = ref None in
+  let stale_pending : (n * string) option ref = ref None in
+  let held : (n, adv_entry list * int) Hashtbl.t ref = ref (Hashtbl.create 4) in
+  let last_ping : (n * n, n) Hashtbl.t = Hashtbl.create 16 in          (* (i, j) -> clock of the last Sync Interest of j at i *)
+  let sweep_pending : (n * n * n list) option ref = ref None in          (* router, dead interval, neighbours before *)
   (* round counting since the last topology change *)
   let proto = ref false in
   let phys : (n, n list) Hashtbl.t = Hashtbl.create 16 in
@@ -101,21 +105,21 @@ let () =
   (* ev lines so far, index at which the current round started, stored advertisements (sender -> adv, stamp) *)
   let evc = ref 0 and round_start = ref 0 and delivered = ref false in
   let slots : (n, adv_entry list * int) Hashtbl.t = Hashtbl.create 16 in
-  let reset_rounds () = rounds := 0; round_start := !evc; pending := all_pairs (topo_of !model) in
+  let reset_rounds () = rounds := 0; round_start := !evc; pending := all_pairs (topo_of !pm.base) in
   let served i j =
     pending := List.filter (fun (a, b) -> not (N.eqb a i && N.eqb b j)) !pending;
     if !pending = [] then begin
-      let ps = all_pairs (topo_of !model) in
+      let ps = all_pairs (topo_of !pm.base) in
       if ps <> [] then begin incr rounds; round_start := !evc; pending := ps end
     end in
   let diverge f m i = Printf.printf "DIVERGE %d %s %s model=%s impl=%s\n" !lineno !case f m i in
   let oracle w d = Printf.printf "ORACLE %d %s %s %s\n" !lineno !case w d in
-  let apply (e : event) (topo_change : bool) =
+  let apply (e : pevent) (topo_change : bool) =
     incr nevents;
-    let before = topo_of !model in
-    let (m', d) = step !model e in
-    model := m'; last_dirty := d;
-    if topo_change && topo_of m' <> before then begin
+    let before = topo_of !pm.base in
+    let (m', d) = pstep !pm e in
+    pm := m'; last_dirty := d;
+    if topo_change && topo_of m'.base <> before then begin
       if !delivered then clean := false;   (* a Deliver before a topology change is part of the history *)
       reset_rounds ()
     end in
@@ -126,32 +130,62 @@ let () =
       (try
       match String.split_on_char ' ' line with
       | "case" :: k :: kind :: _ ->
-          incr ncases; case := k ^ ":" ^ kind; model := []; Hashtbl.reset impl_nb; Hashtbl.reset impl_ent; Hashtbl.reset impl_rt; Hashtbl.reset impl_rib; late_pending := None;
+          incr ncases; case := k ^ ":" ^ kind; pm := pinit; held := Hashtbl.create 4; Hashtbl.reset last_ping; Hashtbl.reset impl_nb; Hashtbl.reset impl_ent; Hashtbl.reset impl_rt; Hashtbl.reset impl_rib; late_pending := None;
           clean := true; evc := 0; delivered := false; Hashtbl.reset slots; reset_rounds (); proto := (kind = "proto"); Hashtbl.reset phys;
           Hashtbl.reset tbl_of_dec; Hashtbl.reset tbl_to_dec
       | "node" :: a :: h :: _ -> node_alias a (n_of_dec_raw h)
-      | ["ev"; "rup"; i] -> incr evc; apply (RouterUp (n_of_dec i)) true
+      | ["ev"; "rup"; i] -> incr evc; apply (PBase (RouterUp (n_of_dec i))) true
       | ["ev"; "rdown"; i] ->
           let i = n_of_dec i in
           incr evc; clean := false; Hashtbl.remove impl_nb i; Hashtbl.remove impl_ent i; Hashtbl.remove impl_rt i; Hashtbl.remove impl_rib i;
-          apply (RouterDown i) true
-      | ["ev"; "up"; i; j] -> incr evc; apply (NbrUp (n_of_dec i, n_of_dec j)) true
-      | ["ev"; "dead"; i; j] -> incr evc; clean := false; apply (NbrDead (n_of_dec i, n_of_dec j)) true
+          apply (PBase (RouterDown i)) true
+      | ["ev"; "up"; i; j] -> incr evc; apply (PBase (NbrUp (n_of_dec i, n_of_dec j))) true
+      | ["ev"; "dead"; i; j] -> incr evc; clean := false; apply (PBase (NbrDead (n_of_dec i, n_of_dec j))) true
       | ["ev"; "fetch"; i; j] ->
           let i = n_of_dec i and j = n_of_dec j in
           incr evc;
-          apply (Fetch (i, j)) false;
+          apply (PBase (Fetch (i, j))) false;
           served i j
       | ["ev"; "late"; i; j] ->
           let i = n_of_dec i and j = n_of_dec j in
           incr evc;
           late_pending := (match Hashtbl.find_opt impl_rib i with Some prev -> Some (i, prev) | None -> None);
-          let adv = match getr !model j with Some r -> advert r.rrib | None -> [] in
-          apply (LateUpdate (i, j, adv)) false
+          let adv = match getr !pm.base j with Some r -> advert r.rrib | None -> [] in
+          apply (PBase (LateUpdate (i, j, adv))) false
+      | ["ev"; "clock"; t] -> incr evc; apply (PClock (n_of_dec_raw t)) false
+      | ["ev"; "sync"; i; j; sq] ->
+          let i = n_of_dec i and j = n_of_dec j in
+          incr evc;
+          Hashtbl.replace last_ping (i, j) !pm.now;
+          apply (PSync (i, j, n_of_dec_raw sq)) true
+      | ["ev"; ("data" | "olddata") as kind; i; j; sq] ->
+          let i = n_of_dec i and j = n_of_dec j and sq = n_of_dec_raw sq in
+          incr evc;
+          let src = if kind = "data" then slots else !held in
+          (match Hashtbl.find_opt src j with
+           | None -> Printf.printf "BADLINE %d data without stored advertisement\n" !lineno
+           | Some (adv, stamp) ->
+               let accepted = ptrace !pm (PData (i, j, sq, adv)) <> [] in
+               if not accepted then
+                 stale_pending := (match Hashtbl.find_opt impl_rib i with Some prev -> Some (i, prev) | None -> None);
+               apply (PData (i, j, sq, adv)) false;
+               if accepted then begin
+                 delivered := true;
+                 if stamp < !round_start then begin clean := false; reset_rounds () end else served i j
+               end)
+      | ["ev"; "hold"; j] ->
+          let j = n_of_dec j in
+          incr evc;
+          (match Hashtbl.find_opt slots j with Some v -> Hashtbl.replace !held j v | None -> ())
+      | ["ev"; "sweep"; i; dead] ->
+          let i = n_of_dec i and dead = n_of_dec_raw dead in
+          incr evc; clean := false;
+          sweep_pending := Some (i, dead, (try Hashtbl.find impl_nb i with Not_found -> []));
+          apply (PSweep (i, dead)) true
       | ["ev"; "snap"; j] ->
           let j = n_of_dec j in
           incr evc;
-          (match getr !model j with
+          (match getr !pm.base j with
            | Some r -> Hashtbl.replace slots j (advert r.rrib, !evc)
            | None -> Printf.printf "BADLINE %d snap of a router the model does not have\n" !lineno)
       | ["ev"; "deliver"; i; j] ->
@@ -161,12 +195,13 @@ let () =
            | None -> Printf.printf "BADLINE %d deliver without snapshot\n" !lineno
            | Some (adv, stamp) ->
                delivered := true;
-               apply (Deliver (i, j, adv)) false;
+               apply (PBase (Deliver (i, j, adv))) false;
                (* a round may only use advertisements generated within it (Conv.around); an older one voids the count *)
                if stamp < !round_start then begin clean := false; reset_rounds () end
                else served i j)
-      | ["obs"; i; d; nb; rib; adv; ent] ->
+      | "obs" :: i :: d :: nb :: rib :: adv :: ent :: rest ->
           let i = n_of_dec i in
+          let sq = match rest with [x] -> Some (split_field "sq=" x) | _ -> None in
           let nb = split_field "nb=" nb and rib = split_field "rib=" rib
           and adv = split_field "adv=" adv and ent = split_field "ent=" ent in
           (* oracle on the implementation's own advertisement *)
@@ -176,6 +211,24 @@ let () =
           Hashtbl.replace impl_ent i (parse_ent ent);
           Hashtbl.replace impl_rt i { self = i; rrib = parse_rib rib; nbrs = parse_nb nb };
           (* a late ribUpdate on a removed neighbour's object must leave the implementation's RIB exactly as it was *)
+          (* advertisement Data that the protocol must ignore leaves the implementation's RIB exactly as it was *)
+          (match !stale_pending with
+           | Some (i', prev) when N.eqb i' i ->
+               stale_pending := None;
+               if prev <> rib then oracle "stale_data_changed_state" ("router=" ^ dec_of_n i ^ " before=" ^ prev ^ " after=" ^ rib)
+           | _ -> ());
+          (* a neighbour heard from within the dead interval must survive the sweep *)
+          (match !sweep_pending with
+           | Some (i', dead, before) when N.eqb i' i ->
+               sweep_pending := None;
+               let after = parse_nb nb in
+               List.iter (fun j ->
+                 match Hashtbl.find_opt last_ping (i, j) with
+                 | Some t when N.leb !pm.now (N.add t dead) && not (List.exists (N.eqb j) after) ->
+                     oracle "live_neighbour_declared_dead" (Printf.sprintf "router=%s neighbour=%s last Sync Interest at %s, sweep at %s, dead interval %s"
+                       (dec_of_n i) (dec_of_n j) (dec_of_n_raw t) (dec_of_n_raw !pm.now) (dec_of_n_raw dead))
+                 | _ -> ()) before
+           | _ -> ());
           (match !late_pending with
            | Some (i', prev) when N.eqb i' i ->
                late_pending := None;
@@ -183,19 +236,24 @@ let () =
            | _ -> ());
           Hashtbl.replace impl_rib i rib;
           if !proto then () else begin
-          (match getr !model i with
+          (match getr !pm.base i with
            | None -> diverge "router" "absent" "present"
            | Some r ->
                if str_nb r <> nb then diverge "nb" (str_nb r) nb;
                if str_rib r <> rib then diverge "rib" (str_rib r) rib;
                if str_adv r <> adv then diverge "adv" (str_adv r) adv;
                if str_ent r <> ent then diverge "ent" (str_ent r) ent;
+               (match sq with
+                | Some sq ->
+                    let m = dashed "," (List.map (fun j -> dec_of_n j ^ ":" ^ dec_of_n_raw (pget (i, j) !pm.nseq)) (List.sort ncmp r.nbrs)) in
+                    if m <> sq then diverge "seq" m sq
+                | None -> ());
                if d <> "x" && d <> b01 !last_dirty then diverge "dirty" (b01 !last_dirty) d) end
       | [("chk" | "chkclean") as kind; _r] ->
           incr nchecks;
           (* the topology as the implementation reported it *)
           let g = List.sort (fun (a, _) (b, _) -> ncmp a b) (Hashtbl.fold (fun i l acc -> (i, l) :: acc) impl_nb []) in
-          let gm = List.sort (fun (a, _) (b, _) -> ncmp a b) (List.map (fun (i, l) -> (i, List.sort ncmp l)) (topo_of !model)) in
+          let gm = List.sort (fun (a, _) (b, _) -> ncmp a b) (List.map (fun (i, l) -> (i, List.sort ncmp l)) (topo_of !pm.base)) in
           if g <> gm then diverge "topology" "-" "-";
           if not (settled g) then Printf.printf "BADCHK %d %s not-settled\n" !lineno !case
           else begin
